@@ -35,7 +35,7 @@ def add_collision(rng, c):
         tys = [d for d in defs if tag(d[3]) == 'type']
         if not defs:
             continue
-        kind = rng.choice(['dup', 'vft', 'xt'])
+        kind = rng.choice(['dup', 'vft', 'vft', 'vft', 'xt'])
         if kind == 'vft':
             withv = [d for d in tys if any(tag(s) == 'vftable' for s in d[3][2:])]
             if not withv: kind = 'dup'
